@@ -273,6 +273,45 @@ def t_augassign(name, path, cls, fn, obj, attr):
     return 'Definition %s (niterations : Z) %s : Z := a_%s + %s.' % (name, tr.signature(), attr, e)
 
 
+def t_local(name, path, cls, fn, var):
+    """the single top-level assignment `var = e` of a function"""
+    f = find_func(path, cls, fn)
+    asg = [n for n in f.body if isinstance(n, ast.Assign) and len(n.targets) == 1 and isinstance(n.targets[0], ast.Name) and n.targets[0].id == var]
+    if len(asg) != 1:
+        raise Untranslatable('%s.%s: expected exactly one `%s = ...`' % (cls, fn, var))
+    tr = Tr(cls, {})
+    e = tr.expr(asg[0].value, {})
+    return 'Definition %s %s : Z := %s.' % (name, tr.signature(), e)
+
+
+def t_store_index(name, path, cls, fn, arrays, var):
+    """the index expression of every store `self.<array>[index] = ...` (all must agree), over the local `var`"""
+    f = find_func(path, cls, fn)
+    seen = {}
+    for n in ast.walk(f):
+        if (isinstance(n, ast.Assign) and len(n.targets) == 1 and isinstance(n.targets[0], ast.Subscript)
+                and isinstance(n.targets[0].value, ast.Attribute) and isinstance(n.targets[0].value.value, ast.Name)
+                and n.targets[0].value.value.id == 'self' and n.targets[0].value.attr in arrays):
+            tr = Tr(cls, {})
+            seen[n.targets[0].value.attr] = (tr.expr(n.targets[0].slice, {var: 'v_' + var}), tr)
+    if sorted(seen) != sorted(arrays) or len({v[0] for v in seen.values()}) != 1:
+        raise Untranslatable('%s.%s: the stores into %s do not all use one index expression' % (cls, fn, arrays))
+    e, tr = list(seen.values())[0]
+    return 'Definition %s (v_%s : Z) %s : Z := %s.' % (name, var, tr.signature(), e)
+
+
+def t_view_upper(name, path, cls, fn, array):
+    """the upper bound of the view `self.<array>[:upper]` returned by a property"""
+    f = find_func(path, cls, fn)
+    hits = [n for n in ast.walk(f) if isinstance(n, ast.Subscript) and isinstance(n.slice, ast.Slice) and isinstance(n.value, ast.Attribute)
+            and n.value.attr == array and isinstance(n.value.value, ast.Name) and n.value.value.id == 'self']
+    if len(hits) != 1 or hits[0].slice.lower is not None or hits[0].slice.step is not None or hits[0].slice.upper is None:
+        raise Untranslatable('%s.%s: expected one view self.%s[:upper]' % (cls, fn, array))
+    tr = Tr(cls, {})
+    e = tr.expr(hits[0].slice.upper, {})
+    return 'Definition %s %s : Z := %s.' % (name, tr.signature(), e)
+
+
 def targets():
     ad = adaptive_props()
     out = []
@@ -300,6 +339,13 @@ def targets():
     add('src_kappa_window', lambda: t_guard('src_kappa_window', 'epsie/proposals/solid_angle.py', 'AdaptiveIsotropicSolidAngleSupport', '_update', ad))
     add('src_swap_due', lambda: t_guard('src_swap_due', 'epsie/chain/ptchain.py', 'ParallelTemperedChain', 'step', {}, var=None,
                                         allow_prefix_loop=True, body_is_call='swap_temperatures'))
+    PTC = 'epsie/chain/ptchain.py'
+    add('src_swap_ii', lambda: t_local('src_swap_ii', PTC, 'ParallelTemperedChain', 'swap_temperatures', 'ii'))
+    add('src_swap_row', lambda: t_store_index('src_swap_row', PTC, 'ParallelTemperedChain', 'swap_temperatures',
+                                              ['_temperature_acceptance', '_temperature_swaps'], 'ii'))
+    add('src_swaps_view_rows', lambda: t_view_upper('src_swaps_view_rows', PTC, 'ParallelTemperedChain', 'temperature_swaps', '_temperature_swaps'))
+    add('src_acceptance_view_rows', lambda: t_view_upper('src_acceptance_view_rows', PTC, 'ParallelTemperedChain', 'temperature_acceptance',
+                                                         '_temperature_acceptance'))
     add('src_len', lambda: t_fun('src_len', 'epsie/chain/base.py', 'BaseChain', '__len__', {}))
     add('src_run_scratchlen', lambda: t_augassign('src_run_scratchlen', 'epsie/samplers/base.py', 'BaseSampler', 'run', 'c', 'scratchlen'))
     return out
